@@ -186,35 +186,43 @@ Lemma interp_at_range (f : R) (v : list R) cnt y : v <> [] -> In y (interp_at f 
 Proof. intros Hv Hy. unfold interp_at in Hy. apply in_map_iff in Hy as (i & <- & _). now apply np_interp_range. Qed.
 
 (** ** output length, as integer arithmetic *)
+Lemma npts_raw_same n : npts_raw FSame n = IZR (Z.of_nat n).
+Proof. unfold npts_raw. cbn [fac_val n1 nmul nofZ NumR]. ring. Qed.
+Lemma npts_raw_ref k n : (1 <= k)%Z -> npts_raw (FRef k) n = IZR (k * Z.of_nat n).
+Proof.
+  intros Hk. unfold npts_raw. cbn [fac_val nmul nofZ NumR]. now rewrite mult_IZR.
+Qed.
+Lemma npts_raw_dec m n : npts_raw (FDec m) n = IZR (Z.of_nat n) / IZR m.
+Proof. reflexivity. Qed.
 Lemma half_floor a : (0 <= a)%Z -> ntrunc (IZR a / nofZ 2) = (a / 2)%Z.
 Proof.
   intros Ha. cbn [nofZ NumR]. rewrite ntrunc_nonneg; [now apply nfloor_div|].
   apply IZR_le in Ha. lra.
 Qed.
 Lemma new_npts_same even n :
-  new_npts even (fac_val FSame) n = if even then (2 * (Z.of_nat n / 2))%Z else Z.of_nat n.
+  new_npts even FSame n = if even then (2 * (Z.of_nat n / 2))%Z else Z.of_nat n.
 Proof.
-  unfold new_npts. cbn [fac_val n1 nmul ndiv nofZ NumR]. rewrite Rmult_1_l. destruct even.
+  unfold new_npts. rewrite npts_raw_same. cbv zeta. destruct even.
   - f_equal. apply half_floor. lia.
   - apply nceil_IZR.
 Qed.
 Lemma new_npts_ref even k n : (1 <= k)%Z ->
-  new_npts even (fac_val (FRef k)) n = if even then (2 * ((k * Z.of_nat n) / 2))%Z else (k * Z.of_nat n)%Z.
+  new_npts even (FRef k) n = if even then (2 * ((k * Z.of_nat n) / 2))%Z else (k * Z.of_nat n)%Z.
 Proof.
-  intros Hk. unfold new_npts. cbn [fac_val nmul ndiv nofZ NumR]. rewrite <- mult_IZR. destruct even.
+  intros Hk. unfold new_npts. rewrite npts_raw_ref by auto. cbv zeta. destruct even.
   - f_equal. apply half_floor. lia.
   - apply nceil_IZR.
 Qed.
 Lemma new_npts_dec even m n : (1 <= m)%Z ->
-  new_npts even (fac_val (FDec m)) n = if even then (2 * (Z.of_nat n / (2 * m)))%Z else (- ((- Z.of_nat n) / m))%Z.
+  new_npts even (FDec m) n = if even then (2 * (Z.of_nat n / (2 * m)))%Z else (- ((- Z.of_nat n) / m))%Z.
 Proof.
-  intros Hm. unfold new_npts. cbn [fac_val n1 nmul ndiv nofZ NumR]. assert (Hm' : 0 < IZR m) by (apply IZR_lt; lia).
+  intros Hm. unfold new_npts. rewrite npts_raw_dec. cbv zeta. cbn [ndiv nofZ NumR].
+  assert (Hm' : 0 < IZR m) by (apply IZR_lt; lia).
   destruct even.
-  - f_equal. replace (1 / IZR m * IZR (Z.of_nat n) / 2) with (IZR (Z.of_nat n) / IZR (2 * m)) by (rewrite mult_IZR; field; lra).
+  - f_equal. replace (IZR (Z.of_nat n) / IZR m / 2) with (IZR (Z.of_nat n) / IZR (2 * m)) by (rewrite mult_IZR; field; lra).
     rewrite ntrunc_nonneg; [apply nfloor_div; lia|].
     apply Rmult_le_pos; [apply IZR_le; lia|]. apply Rlt_le, Rinv_0_lt_compat, IZR_lt. lia.
-  - replace (1 / IZR m * IZR (Z.of_nat n)) with (IZR (Z.of_nat n) / IZR m) by (field; lra).
-    apply nceil_div. lia.
+  - apply nceil_div. lia.
 Qed.
 
 (** a factor is well formed when its integer is at least 1 (what [factor_spec] guarantees, and what the float chain
@@ -226,7 +234,7 @@ Proof. intros [E|k Hk _|m Hm _ _]; cbn; auto; lia. Qed.
 (** the length in units of the *new* step, bracketed by the old length in the same units:
     FSame: n-1 <= n' <= n;  FRef k: k*n-1 <= n' <= k*n;  FDec m: n - 2m < m*n' < n + m  *)
 Lemma new_npts_bounds even f n : fac_wf f ->
-  let n' := new_npts even (fac_val f) n in
+  let n' := new_npts even f n in
   match f with
   | FSame => (Z.of_nat n - 1 <= n' <= Z.of_nat n)%Z
   | FRef k => (k * Z.of_nat n - 1 <= n' <= k * Z.of_nat n)%Z
@@ -278,12 +286,12 @@ Proof.
     revert H1 H2. generalize (IZR N) (IZR (Z.of_nat n)). intros a b H1 H2. apply Rabs_def1; nra.
 Qed.
 Lemma duration_bound even f n dt : 0 < dt -> fac_wf f ->
-  Rabs (IZR (new_npts even (fac_val f) n) * (dt / fac_val f) - IZR (Z.of_nat n) * dt) < 2 * Rmax dt (dt / fac_val f).
+  Rabs (IZR (new_npts even f n) * (dt / fac_val f) - IZR (Z.of_nat n) * dt) < 2 * Rmax dt (dt / fac_val f).
 Proof. intros Hdt Hwf. apply duration_of_bounds; auto. now destruct (new_npts_bounds even f n Hwf) as (Hb & _ & _). Qed.
 
 (** a record at least two (old or target) steps long yields at least two output samples *)
 Lemma nonempty_bound even dt tg f n : 0 < dt -> 0 < tg -> factor_spec dt tg f ->
-  2 * Rmax dt tg <= IZR (Z.of_nat n) * dt -> (2 <= new_npts even (fac_val f) n)%Z.
+  2 * Rmax dt tg <= IZR (Z.of_nat n) * dt -> (2 <= new_npts even f n)%Z.
 Proof.
   intros Hdt Htg Hf Hn. pose proof (Rmax_l dt tg) as Hl. pose proof (Rmax_r dt tg) as Hr.
   assert (Hn2 : (2 <= Z.of_nat n)%Z). { apply le_IZR. nra. }
@@ -304,10 +312,10 @@ Lemma nth_firstn_lt {A} (l : list A) i j d : (i < j)%nat -> nth i (firstn j l) d
 Proof. revert i j; induction l as [|x r IH]; intros i j Hij; destruct j; try lia; destruct i; cbn; auto. apply IH. lia. Qed.
 
 Lemma out_length even v (dt tg : R) :
-  length (fst (interp_approx even v dt tg)) = Z.to_nat (new_npts even (factor dt tg) (length v)).
+  length (fst (interp_approx even v dt tg)) = Z.to_nat (new_npts even (factor_kind dt tg) (length v)).
 Proof. unfold interp_approx. cbn [fst]. apply interp_at_length. Qed.
 Lemma out_length_Z even v (dt tg : R) : 0 < dt -> 0 < tg ->
-  Z.of_nat (length (fst (interp_approx even v dt tg))) = new_npts even (factor dt tg) (length v).
+  Z.of_nat (length (fst (interp_approx even v dt tg))) = new_npts even (factor_kind dt tg) (length v).
 Proof.
   intros Hdt Htg. rewrite out_length. apply Z2Nat.id. unfold factor.
   pose proof (factor_spec_wf _ _ _ (factor_kind_spec dt tg Hdt Htg)) as Hwf.
@@ -371,7 +379,7 @@ Proof.
   exists k. split; auto. split.
   - cbn [fac_val nofZ ndiv NumR]. assert (0 < IZR k) by (apply IZR_lt; lia). field. lra.
   - intros i Hi. destruct (new_npts_bounds even (FRef k) (length v)) as (Hb & Hpos & _); [cbn; lia|]. cbn zeta in Hb.
-    assert (Hc : (Z.to_nat k * i < length (interp_at (fac_val (FRef k)) v (Z.to_nat (new_npts even (fac_val (FRef k)) (length v)))))%nat).
+    assert (Hc : (Z.to_nat k * i < length (interp_at (fac_val (FRef k)) v (Z.to_nat (new_npts even (FRef k) (length v)))))%nat).
     { apply Nat2Z.inj_lt. rewrite HL, Nat2Z.inj_mul, Z2Nat.id by lia. nia. }
     split; auto. rewrite interp_at_length in Hc. apply refine_retains; auto; lia.
 Qed.
@@ -427,23 +435,26 @@ Proof.
   pose proof (Z.mul_div_le c 2 ltac:(lia)). pose proof (Z.mul_succ_div_gt c 2 ltac:(lia)).
   split; [lia|]. now rewrite Z.even_mul.
 Qed.
+(** the count handed to scipy: exactly factor * npts when that is an integer, its floor otherwise *)
+Lemma rs_count_spec f n : fac_wf f ->
+  let c := rs_count f n in
+  (0 <= c)%Z /\ match f with FSame => c = Z.of_nat n | FRef k => c = (k * Z.of_nat n)%Z
+                          | FDec m => (Z.of_nat n - m < m * c <= Z.of_nat n)%Z end.
+Proof.
+  intros Hwf. unfold rs_count. destruct f as [|k|m]; cbn [fac_wf] in Hwf; cbv zeta.
+  - rewrite npts_raw_same. rewrite ntrunc_nonneg by (apply IZR_le; lia). rewrite nfloor_IZR. split; [lia|reflexivity].
+  - rewrite npts_raw_ref by auto. rewrite ntrunc_nonneg by (apply IZR_le; nia). rewrite nfloor_IZR. split; [nia|reflexivity].
+  - rewrite npts_raw_dec. assert (Hm' : 0 < IZR m) by (apply IZR_lt; lia).
+    rewrite ntrunc_nonneg by (apply Rmult_le_pos; [apply IZR_le; lia|apply Rlt_le, Rinv_0_lt_compat; lra]). rewrite nfloor_div by lia.
+    pose proof (Z.mul_div_le (Z.of_nat n) m ltac:(lia)). pose proof (Z.mul_succ_div_gt (Z.of_nat n) m ltac:(lia)).
+    assert (0 <= Z.of_nat n / m)%Z by (apply Z.div_pos; lia). split; lia.
+Qed.
 Lemma new_npts_rs_bounds even f n : fac_wf f ->
-  let n' := new_npts_rs even (fac_val f) n in
+  let n' := new_npts_rs even f n in
   len_bounds f n n' /\ (0 <= n')%Z /\ (even = true -> Z.even n' = true).
 Proof.
   intros Hwf n'. subst n'. unfold new_npts_rs, len_bounds.
-  assert (Hc : let c := ntrunc (nmul (fac_val f) (nofZ (Z.of_nat n))) in (0 <= c)%Z /\
-          match f with FSame => c = Z.of_nat n | FRef k => c = (k * Z.of_nat n)%Z
-                     | FDec m => (Z.of_nat n - m < m * c <= Z.of_nat n)%Z end).
-  { destruct f as [|k|m]; cbn [fac_wf] in Hwf; cbn [fac_val n1 nmul ndiv nofZ NumR]; cbn zeta.
-    - rewrite Rmult_1_l. rewrite ntrunc_nonneg by (apply IZR_le; lia). rewrite nfloor_IZR. split; [lia|reflexivity].
-    - rewrite <- mult_IZR. rewrite ntrunc_nonneg by (apply IZR_le; nia). rewrite nfloor_IZR. split; [nia|reflexivity].
-    - assert (Hm' : 0 < IZR m) by (apply IZR_lt; lia).
-      replace (1 / IZR m * IZR (Z.of_nat n)) with (IZR (Z.of_nat n) / IZR m) by (field; lra).
-      rewrite ntrunc_nonneg by (apply Rmult_le_pos; [apply IZR_le; lia|apply Rlt_le, Rinv_0_lt_compat; lra]). rewrite nfloor_div by lia.
-      pose proof (Z.mul_div_le (Z.of_nat n) m ltac:(lia)). pose proof (Z.mul_succ_div_gt (Z.of_nat n) m ltac:(lia)).
-      assert (0 <= Z.of_nat n / m)%Z by (apply Z.div_pos; lia). split; lia. }
-  cbn zeta in Hc. destruct Hc as [Hc0 Hc]. set (c := ntrunc (nmul (fac_val f) (nofZ (Z.of_nat n)))) in *. clearbody c.
+  destruct (rs_count_spec f n Hwf) as [Hc0 Hc]. set (c := rs_count f n) in *. clearbody c.
   destruct (quot2 c Hc0) as [Hq He].
   destruct even.
   - destruct f as [|k|m]; cbn [fac_wf] in Hwf; (split; [|split; [lia|auto]]); try lia. nia.
@@ -458,16 +469,40 @@ Lemma C14_resample_step even v dt tg :
   snd (resample_approx RS even v dt tg) = snd (interp_approx even v dt tg).
 Proof. reflexivity. Qed.
 Lemma rs_length_Z even v (dt tg : R) : 0 < dt -> 0 < tg ->
-  Z.of_nat (length (fst (resample_approx RS even v dt tg))) = new_npts_rs even (factor dt tg) (length v).
+  Z.of_nat (length (fst (resample_approx RS even v dt tg))) = new_npts_rs even (factor_kind dt tg) (length v).
 Proof.
-  intros Hdt Htg. unfold resample_approx. cbn [fst]. rewrite RS_length. apply Z2Nat.id. unfold factor.
+  intros Hdt Htg. unfold resample_approx. cbn [fst].
   pose proof (factor_spec_wf _ _ _ (factor_kind_spec dt tg Hdt Htg)) as Hwf.
-  now destruct (new_npts_rs_bounds even _ (length v) Hwf) as (_ & H & _).
+  destruct (rs_count_spec (factor_kind dt tg) (length v) Hwf) as [Hc0 _].
+  unfold new_npts_rs. set (c := rs_count (factor_kind dt tg) (length v)) in *. clearbody c.
+  destruct (quot2 c Hc0) as [Hq _]. destruct even.
+  - rewrite firstn_length, RS_length. rewrite Nat2Z.inj_min, !Z2Nat.id by lia. lia.
+  - rewrite RS_length. apply Z2Nat.id. lia.
+Qed.
+(** the count handed to the oracle is exactly factor * npts whenever that is an integer: the resampled grid then spans
+    exactly the record's period npts * dt with step dt / factor (no time warp); even-trimming happens afterwards *)
+Lemma C14_resample_count_exact (v : list R) dt tg : 0 < dt -> 0 < tg ->
+  let k := factor_kind dt tg in let c := rs_count k (length v) in
+  (match k with FDec m => (Z.of_nat (length v) mod m = 0)%Z | _ => True end) ->
+  IZR c * (dt / fac_val k) = IZR (Z.of_nat (length v)) * dt.
+Proof.
+  intros Hdt Htg k c Hdiv. subst k c.
+  pose proof (factor_spec_wf _ _ _ (factor_kind_spec dt tg Hdt Htg)) as Hwf.
+  destruct (rs_count_spec (factor_kind dt tg) (length v) Hwf) as [_ Hc]. cbv zeta in Hc.
+  destruct (factor_kind dt tg) as [|k|m]; cbn [fac_wf] in Hwf.
+  - rewrite Hc, newdt_same. reflexivity.
+  - rewrite Hc, mult_IZR. cbn [fac_val nofZ NumR]. assert (0 < IZR k) by (apply IZR_lt; lia). field. lra.
+  - rewrite newdt_dec by auto. apply Z.div_exact in Hdiv; [|lia].
+    assert (E : (m * rs_count (FDec m) (length v))%Z = Z.of_nat (length v)).
+    { unfold rs_count. rewrite npts_raw_dec. assert (Hm' : 0 < IZR m) by (apply IZR_lt; lia).
+      rewrite ntrunc_nonneg by (apply Rmult_le_pos; [apply IZR_le; lia|apply Rlt_le, Rinv_0_lt_compat; lra]).
+      rewrite nfloor_div by lia. lia. }
+    rewrite <- E, mult_IZR. ring.
 Qed.
 Lemma C14_resample_even v dt tg : 0 < dt -> 0 < tg ->
   Z.even (Z.of_nat (length (fst (resample_approx RS true v dt tg)))) = true.
 Proof.
-  intros Hdt Htg. rewrite rs_length_Z by auto. unfold factor.
+  intros Hdt Htg. rewrite rs_length_Z by auto.
   pose proof (factor_spec_wf _ _ _ (factor_kind_spec dt tg Hdt Htg)) as Hwf.
   destruct (new_npts_rs_bounds true _ (length v) Hwf) as (_ & _ & H). now apply H.
 Qed.
@@ -475,7 +510,7 @@ Lemma C14_resample_duration even (v : list R) dt tg : 0 < dt -> 0 < tg ->
   let out := resample_approx RS even v dt tg in
   Rabs (IZR (Z.of_nat (length (fst out))) * snd out - IZR (Z.of_nat (length v)) * dt) < 2 * Rmax dt (snd out).
 Proof.
-  intros Hdt Htg out. subst out. rewrite rs_length_Z by auto. unfold resample_approx, factor. cbn [snd].
+  intros Hdt Htg out. subst out. rewrite rs_length_Z by auto. unfold resample_approx. cbn [snd].
   pose proof (factor_spec_wf _ _ _ (factor_kind_spec dt tg Hdt Htg)) as Hwf.
   apply duration_of_bounds; auto. now destruct (new_npts_rs_bounds even _ (length v) Hwf) as (H & _ & _).
 Qed.
